@@ -72,11 +72,16 @@ Print Assumptions C07_perm.
 
 (* (4) epoch blindness: offset all cycle counters of every rank by its own arbitrary constant k(pid) — the stage
    still returns, and every drained event is the same as before in everything the export can see (same order,
-   same uid, same ts, same dur, same wall-clock TS1..TS5).  Hypotheses: the chain-allreduce branch ([tree_es]) and
-   non-negative pids on device slices (dts_shifts[pid] wraps around for negative pids). *)
+   same uid, same ts, same dur, same wall-clock TS1..TS5).  BOTH branches of the calibration (P_map identity when
+   rank 0's first group carries the reduce tag, reversed otherwise), any number of ranks.  Hypothesis: non-negative
+   pids on device slices (dts_shifts[pid] wraps around for negative pids).
+   History: until /repo fix "C07" the reference offset dts_2_hts_ref_offset was taken from rank 0's UNSHIFTED
+   counters; in the reversed branch with three or more ranks rank 0 is itself shifted, and the statement was false
+   there (this file used to carry C07_reversed_branch_refuted with a three-rank witness; the check's oracle had been
+   restricted to the tree branch, which was a mistake: DESIGN 8.3/8.4).  seeded/revert_fix_C07 re-introduces it. *)
 Theorem C07_epoch_blind :
   forall (k : Z -> Q) (es out : list ev),
-    mp_run es = Ok out -> tree_es es = true ->
+    mp_run es = Ok out ->
     (forall e, In e es -> has_ts5 e = true -> 0 <= e_pid e) ->
     exists out2, mp_run (map (bump k) es) = Ok out2 /\ Forall2 same_view out out2.
 Proof. exact epoch_blind. Qed.
@@ -101,15 +106,14 @@ Theorem C07_aligned :
 Proof. exact aligned. Qed.
 Print Assumptions C07_aligned.
 
-(* (6) documentation: in the other branch (rank 0's names without the tag: P_map reversed, the reference offset is
-   taken from a rank that is itself shifted) statement (4) is FALSE for three ranks — a computed witness.  Such
-   inputs are outside the property's scenario class. *)
-Theorem C07_reversed_branch_refuted :
-  exists (k : Z -> Q) (es out out2 : list ev),
-    tree_es es = false /\ (forall e, In e es -> has_ts5 e = true -> 0 <= e_pid e) /\
-    mp_run es = Ok out /\ mp_run (map (bump k) es) = Ok out2 /\ ~ Forall2 same_view out out2.
-Proof. exact reversed_branch_refuted. Qed.
-Print Assumptions C07_reversed_branch_refuted.
+(* (6) the former counter-example of the reversed branch (three ranks, rank 0's names without the tag, rank 1's counters
+   offset by one): now the same export - a concrete instance of (4) in that branch, with its premises met. *)
+Theorem C07_chain_branch_instance :
+  tree_es wit_chain = false /\
+  exists out out2, mp_run wit_chain = Ok out /\ mp_run (map (bump wit_c) wit_chain) = Ok out2 /\
+                   ts_eqb_list out out2 = true /\ List.length out = 3%nat.
+Proof. exact chain_witness_blind. Qed.
+Print Assumptions C07_chain_branch_instance.
 
 (* ---- non-vacuity: a three-rank tagged trace meets every hypothesis above *)
 Example C07_premises_met :
